@@ -6,7 +6,7 @@ THEOREMS = ["C05_returned_x_is_evaluated_iterate", "C05_last_calls_at_x", "C05_e
             "C05_resampling_spends_the_reserve", "C03_reserve_exact", "C03_noise_level_rule", "C03_budget_model_is_source",
             # Props/C05final.v: the final phase of Model/Skeleton.v equals gen/Src_final.v, regenerated from the statements of optimize() after the main loop
             "C05_final_phase_is_source", "C05_resampling_block_is_source", "C05_sd_vector_is_source_partial", "C05_returned_iterate_is_one_history_row",
-            "C05_final_samples_not_recorded", "C05_estimate_is_source", "C05_sd_supplement_is_sd_at_x_refuted", "C03_final_calls_bounded_is_source", "C19_result_fields_are_source"]
+            "C05_final_samples_not_recorded", "C05_estimate_is_source", "C05_sd_supplement_is_sd_at_x", "C03_final_calls_bounded_is_source", "C19_result_fields_are_source"]
 TRANSLATORS = ["budget", "final"]
 LEVEL = "proof"
 RULE = ("real runs with stochastic targets (auto-detected, declared homoskedastic, user-specified heteroskedastic; sigma 0.05-1; noise_final_samples 0,1,2,3,10; budgets squeezing the reserve; "
@@ -67,7 +67,7 @@ def tie(ctx, broken):
     F.tie_final(ctx, broken, out, "c05")          # gen/Src_final.v on every recorded end-game (translator validation)
     F.tie_result_assembly(ctx, broken)
     F.apply_mon_final(ctx, out, broken)
-    R.apply_monitor(ctx, out, F.mon_c05_sdsuppl)  # open known finding (SD supplement taken from the last logged row), reported separately so that it hides nothing
+    R.apply_monitor(ctx, out, F.mon_c05_sdsuppl)  # the SD paired with the supplemented observation is an SD reported / logged at the returned x (concrete C05 clause)
     B.run_level_tie(ctx, broken, out, "c05")      # level, reserve (= number of final samples), loop budget vs Model/Budget.v
     # noise detection: level after init vs |y0 - y0'| > tol_noise
     bad = []
